@@ -162,6 +162,8 @@ class Memory(Backend):
             return NOT_EXIST
         expire_at, _ = self.store[key]
         if expire_at is not None:
+            if expire_at <= time.time():
+                return NOT_EXIST
             return round(expire_at - time.time())
         return UNLIMITED
 
